@@ -1170,7 +1170,9 @@ CASES += [
             }
         }
         let v1 = self.condition(sdd, lbl, true);"""),
-    dict(name="cp-closure-exists-sign-adjusted-ok", file=SB, rule="CP", props=["C03"], expect=None,
+    # the CP rule must stay silent; the ownership rule WC sdd-node reports any new constructor of decision nodes, correct or
+    # not (stated in DESIGN §10, round 4), so no property check is required to pass here
+    dict(name="cp-closure-exists-sign-adjusted-ok", file=SB, rule="CP", props=[], expect=None,
          old="""        // TODO this can be optimized by specializing it
         let v1 = self.condition(sdd, lbl, true);""",
          new="""        if let SddPtr::Reg(or) | SddPtr::Compl(or) = sdd {
@@ -1939,7 +1941,9 @@ CASES += [
         names.sort();
         let mapping: HashMap<&String, usize> = names.into_iter().enumerate().map(|(i, s)| (s, i)).collect();
 """)]),
-    dict(name="mp-variable-mapping-natural-order-alone-ok", file="src/serialize/ser_logical_expr.rs", rule="MP", props=["C19", "C17"], expect=None,
+    # (round 9) a consistent change of the numbering keeps the tool's pipeline intact (C19: weights and orders are attached by
+    # name) but is no longer "the documented variable numbering" of C17: reported for C17 by MP documented-order
+    dict(name="mp-variable-mapping-other-order-alone", file="src/serialize/ser_logical_expr.rs", rule="MP", props=["C17"], expect="variable-numbering:documented-order",
          old="""        v.sort();
         HashMap::from_iter""",
          new="""        v.sort_by_key(|s| (s.len(), (*s).clone()));
